@@ -6,7 +6,11 @@ prop("C09", "exploration",
      "stream (32-byte header naming the incarnation + keyed bytes), reads the acceptor's tagged reply, closes; unreliable: writes "
      "1-5 tagged whole messages of sizes around the header size, the 32768-byte frame limit, 65535 and beyond 65536, closes. Each "
      "side runs an Accept loop; every accepted tube is read to the end. Network: loss 0/5/20 %, duplication, delay; bounded regime "
-     "= FIFO per direction (no packet outlives its tube), late-arrival regime = jitter up to 3 s. Oracle: every byte/message read on "
+     "= FIFO per direction (no packet outlives its tube), late-arrival regime = jitter up to 3 s; one case in three (both regimes): "
+     "TRUNCATED DATAGRAMS - per direction 0 / 0.5 / 2 / 6 % of the delivered copies arrive with their last 1-4 bytes missing (memconn "
+     "Params.TruncPm/TruncMax, keyed to the packet index); to a correct receiver that is a lost datagram (shorter than its length field "
+     "says or than a header), so the network log counts whole deliveries only, such a case is not loss-free, and no clause changes: "
+     "a truncated datagram may be lost, nothing foreign or altered may be delivered because of it. Oracle: every byte/message read on "
      "a tube belongs to the incarnation that tube was accepted for (content is a keyed function of incarnation and offset), "
      "unreliable reads are whole written messages (never empty, fragments or merges), ids handed to concurrent local creators "
      "are distinct per class and have the side's parity, each incarnation is offered by Accept at most once with its opener's type "
@@ -19,7 +23,9 @@ prop("C09", "exploration",
      "opens 0-140 reliable and 0-140 unreliable tubes at once (a side owns 128 identifiers per class; one-sided in a quarter of the cases), "
      "spread over 1-8 concurrent creators, plus an optional later wave of up to 120 tubes where the peer opens at most 128 in total; each "
      "side's application starts calling Accept after 0-3 s and pauses 0-10 ms between Accept calls; faithful network (delay 1-50 ms, "
-     "nothing lost, duplicated or reordered), no tube is closed before the verdict, so no identifier is ever reused (the open "
+     "nothing lost, duplicated or reordered - except, in one case in three, the one fault TRUNCATED DATAGRAMS: per direction 0 / 0.2 / 1 / 3 % "
+     "of the datagrams arrive 1-4 bytes short, which a correct receiver drops, so open requests and data are retransmitted and an unreliable "
+     "message may be missing; an open request counts as arrived only when it arrived whole), no tube is closed before the verdict, so no identifier is ever reused (the open "
      "findings of the first family cannot occur; signatures carry :burst-of-opens). Each opener writes one tagged stream / message. "
      "Oracle: identifiers handed to the creators are distinct per class and have the side's parity; Accept never returns a tube "
      "nobody opened, never the same tube twice, always with the opener's type and class; every tube (both classes) whose open request "
